@@ -104,4 +104,15 @@ func init() {
 		Real: []string{"IndexPos", "NewIndexReadSeeker", "indexFile", "indexFileHandle", "NullChunk"},
 		Stub: []string{"chunk store (fault injecting)", "kernel/go-fuse bridge", "scheduler"},
 	})
+	reg(&Prop{ID: "C10", Level: "exploration",
+		Quick:    Tier{Cases: 40000, PerJob: 2500, Seconds: 60},
+		Thorough: Tier{Cases: 2000000, PerJob: 25000, Seconds: 1500},
+		Rule: "one case = blob <= 24 chunks (null-chunk runs, repeated chunks, generic) x 1..3 phases; each phase opens a SparseFile on the same cache/state files (a restart) and runs 1..4 concurrent reader tasks (ReadAt or the FUSE sparse-file node) with 1..12 reads each, 0..2 tasks that save the state at tape-chosen moments, optional preload from an earlier state with 0..4 workers, transient store failures / missing / latency (2/3 of the phases) or a store that fails every request after a restart (1/3 of later phases), process death at a tape-chosen scheduling step (1/4 of the phases; only files survive); between phases the state file may be removed or replaced by one of another length and the cache file removed, shrunk or grown; oracle per read: bytes == blob range or an error attributable to a store failure injected for one of its chunks during the call; distinct = distinct (class, trace hashes); non-trivial = preemption or fault fired",
+		Assumptions: []string{
+			"process death is modelled by freezing every task at a scheduling point (file-system calls are scheduling points in half of the cases) and reopening from the files; this equals SIGKILL for file contents because the page cache survives process death and desync buffers nothing in user space on this path",
+			"reads with offset > size are only issued through ReadAt, not through the FUSE node (the kernel clamps them)",
+		},
+		Real: []string{"SparseFile", "SparseFileHandle", "sparseFileLoader", "sparseIndexFile (FUSE node)", "state save/load/preload"},
+		Stub: []string{"chunk store (fault injecting)", "kernel/go-fuse bridge", "scheduler", "crash instant"},
+	})
 }
